@@ -50,7 +50,7 @@ fn grow<F: FnMut(&mut Rng, &C01Case, Option<Ended>, usize) -> Option<Step>>(rng:
 fn current_program(case: &C01Case) -> Program {
     let mut cur = case.prog.clone();
     for s in &case.session {
-        if let Step::Edit(p) = s {
+        if let Step::Edit(p) | Step::Renum(_, p) = s {
             cur = p.clone();
         }
     }
@@ -151,6 +151,108 @@ fn direct_read(rng: &mut Rng) -> Vec<Stmt> {
     ]
 }
 
+/// The DATA position (and the variables read so far) must survive a run that dies of pool exhaustion:
+/// the next READ typed at the prompt delivers the next constant.
+#[derive(Clone)]
+struct C09PoolCase {
+    reads: usize,
+    restore_first: bool,
+    kind: u32,
+    sched_variant: usize,
+    entropy: u64,
+}
+
+impl C09PoolCase {
+    fn program(&self) -> Vec<String> {
+        let mut p = vec!["10 DATA 11,22,33".to_string(), "15 DATA 44,55,66,77".to_string()];
+        if self.restore_first {
+            p.push("18 RESTORE 15".into());
+        }
+        let names = ["A", "B", "C"];
+        let mut n = 20;
+        for v in names.iter().take(self.reads) {
+            p.push(format!("{} READ {}", n, v));
+            n += 2;
+        }
+        p.push(match self.kind % 3 {
+            0 => "40 GOSUB 40".to_string(),
+            1 => "40 FOR I=1 TO 2:FOR J=1 TO 2:GOTO 40".to_string(),
+            _ => "40 DEF FNR(X)=FNR(X+1)+1:Q=FNR(1)".to_string(),
+        });
+        p
+    }
+}
+
+impl Case for C09PoolCase {
+    fn execute(&self) -> Verdict {
+        let mut v = Verdict::default();
+        let mut w = World::booted(sched_of(self.sched_variant, self.entropy), self.entropy, false);
+        let prog = self.program();
+        enter_program(&mut w, &prog);
+        let o = w.line("RUN", &LineIo::budget(3_000_000));
+        let errs: Vec<String> = w.events[o.ev_start..o.ev_end]
+            .iter()
+            .filter_map(|e| if let Ev::Errors(es) = e { Some(es.iter().map(|x| x.text.clone()).collect::<Vec<_>>().join("|")) } else { None })
+            .collect();
+        let oom = errs.iter().any(|e| e.starts_with("?OUT OF MEMORY"));
+        let all: Vec<i32> = if self.restore_first { vec![44, 55, 66, 77] } else { vec![11, 22, 33, 44, 55, 66, 77] };
+        let mut fail: Option<Violation> = None;
+        if !oom {
+            v.discarded = Some(format!("no pool exhaustion ({:?}, budget_hit={})", errs, o.budget_hit));
+        } else {
+            w.stats.bump("c09.pool_exhausted_after_reads");
+            // the variables read before the fault, then the next constant
+            let mut want = String::new();
+            for k in 0..self.reads {
+                want.push_str(&format!(" {} ", all[k]));
+            }
+            want.push_str(&format!("< {} >\n", all[self.reads]));
+            let o = w.line("READ X:PRINT A;B;C;\"<\";X;\">\"".replace("A;B;C;", &["A;", "B;", "C;"][..self.reads].concat()).as_str(), &LineIo::budget(2000));
+            let t = tokens(&w.events[o.ev_start..o.ev_end]);
+            if t != vec![Tok::Out(want.clone())] && w.fatal.is_none() {
+                fail = Some(Violation {
+                    key: "C09:data-position-after-pool-exhaustion".into(),
+                    detail: format!("after {} READs and a run that ended in OUT OF MEMORY, the direct READ line printed {:?}, expected {:?}", self.reads, t, want),
+                });
+            }
+        }
+        if let Some(ft) = &w.fatal {
+            fail = Some(fatal_violation("C09", ft));
+        }
+        v.violation = fail;
+        v.stats.merge(&w.stats);
+        v.instr = w.total_instr;
+        v.sim_us = w.sim_us;
+        v.executions = 1;
+        v.fingerprint = w.log_hash;
+        v.nontrivial = true;
+        v
+    }
+    fn shrink(&self) -> Vec<Box<dyn Case>> {
+        let mut out: Vec<Box<dyn Case>> = vec![];
+        if self.restore_first {
+            out.push(Box::new(C09PoolCase {
+                restore_first: false,
+                ..self.clone()
+            }));
+        }
+        if self.sched_variant != 1 {
+            out.push(Box::new(C09PoolCase {
+                sched_variant: 1,
+                ..self.clone()
+            }));
+        }
+        out
+    }
+    fn describe(&self) -> Json {
+        obj()
+            .set("kind", "C09 READs, then the run dies of pool exhaustion (GOSUB / FOR / FN recursion); a direct READ must deliver the next constant and the variables read so far must be intact")
+            .set("program", program_json(&self.program()))
+            .set("quantum_schedule_variant", self.sched_variant)
+            .build()
+    }
+}
+
 impl Property for C09 {
     fn id(&self) -> &'static str {
         "C09"
@@ -167,6 +269,20 @@ impl Property for C09 {
         }
         cfg.stop = rng.pct(40);
         cfg.doubles = rng.pct(40);
+        if rng.below(150) == 0 {
+            return Box::new(C09PoolCase {
+                reads: 1 + rng.usize(3),
+                restore_first: rng.pct(30),
+                kind: rng.below(3) as u32,
+                sched_variant: rng.usize(7),
+                entropy: rng.next_u64(),
+            });
+        }
+        if rng.below(200) == 0 {
+            // every interrupt instant of a READ-heavy program (between Read and its store, too), CONT
+            cfg.inkey = false;
+            return crate::props::c13::interrupt_case(rng, cfg, "C09", 300);
+        }
         let prog = gen_program(rng, cfg);
         let mut case = base_case(rng, prog, "C09");
         case.session.push(Step::Direct(vec![Stmt::Run(None)]));
@@ -174,7 +290,7 @@ impl Property for C09 {
         let mut pending: Vec<Step> = vec![];
         grow(rng, &mut case, steps, |rng, case, last, _i| {
             let cur = current_program(case);
-            let after_edit = matches!(case.session.last(), Some(Step::Edit(_)));
+            let after_edit = matches!(case.session.last(), Some(Step::Edit(_)) | Some(Step::Renum(..)));
             if !after_edit {
                 if let Some(s) = pending.pop() {
                     return Some(s);
@@ -207,6 +323,23 @@ impl Property for C09 {
                         Step::Direct(vec![Stmt::Restore(Some(Target::L(rng.usize(cur.lines.len()))))])
                     }
                 }
+                5 if rng.pct(35) && !cur.lines.is_empty() => {
+                    // RENUM: every RESTORE n has to follow its line
+                    let new = *rng.pick(&[1u32, 100, 1000, 7]);
+                    let step = *rng.pick(&[1u32, 3, 10, 10]);
+                    let old = if rng.pct(30) { Some(cur.lines[rng.usize(cur.lines.len())].num as u32) } else { None };
+                    let valid = |p: &Program| p.lines.windows(2).all(|w| w[0].num < w[1].num);
+                    match crate::props::c14::model_renum(&cur, Some(new), old, Some(step)) {
+                        Some((p, _)) if valid(&p) => Step::Renum(
+                            match old {
+                                Some(o) => format!("RENUM {},{},{}", new, o, step),
+                                None => format!("RENUM {},,{}", new, step),
+                            },
+                            p,
+                        ),
+                        _ => Step::Direct(vec![Stmt::Run(None)]),
+                    }
+                }
                 5..=6 => match data_edit(rng, &cur) {
                     Some(p) => Step::Edit(p),
                     None => Step::Direct(vec![Stmt::Run(None)]),
@@ -237,7 +370,7 @@ impl Property for C09 {
         }
     }
     fn rule(&self) -> &'static str {
-        "one evaluation = a generated program with DATA lines before, between and after the code (also inside never-executed IF branches), READ lists of 1-4 targets of every type, RESTORE and RESTORE n to arbitrary existing lines, plus a session of 2-8 steps: RUN, direct-mode READ/RESTORE/RESTORE n between runs, edits that insert, change or delete DATA lines followed by RUN / CLEAR / RESTORE, CLEAR, STOP + direct READ + CONT, DATA typed as a direct statement followed by RESTORE <last line> and READ; every typed line's screen transcript is compared with RefBASIC's data-pointer model; distinct = distinct API/event log fingerprint; non-trivial = more than 10 VM instructions"
+        "one evaluation = a generated program with DATA lines before, between and after the code (also inside never-executed IF branches), READ lists of 1-4 targets of every type, RESTORE and RESTORE n to arbitrary existing lines, plus a session of 2-8 steps: RUN, direct-mode READ/RESTORE/RESTORE n between runs, edits that insert, change or delete DATA lines, or RENUM, followed by RUN / CLEAR / RESTORE, CLEAR, STOP + direct READ + CONT, DATA typed as a direct statement followed by RESTORE <last line> and READ; (0.7%) a program that READs 1-3 constants and then dies of pool exhaustion, followed by a direct READ; (0.5%) the interrupt / CONT enumeration of C13 over a READ-heavy program; every typed line's screen transcript is compared with RefBASIC's data-pointer model; distinct = distinct API/event log fingerprint; non-trivial = more than 10 VM instructions"
     }
     fn assumptions(&self) -> Vec<&'static str> {
         vec![
@@ -247,7 +380,7 @@ impl Property for C09 {
         ]
     }
     fn required_probes(&self) -> Vec<&'static str> {
-        vec!["reach.READ", "reach.RESTORE", "fault.edit", "reach.CONT", "c01.lines_compared", "c01.direct_data_not_judged"]
+        vec!["reach.READ", "reach.RESTORE", "fault.edit", "reach.CONT", "c01.lines_compared", "c01.direct_data_not_judged", "c09.pool_exhausted_after_reads", "c13.intr_judged", "fault.renum"]
     }
 }
 
@@ -534,6 +667,14 @@ impl Property for C11 {
             cfg.stop = false;
             cfg.end_mid = false;
         }
+        if rng.below(200) == 0 {
+            // Ctrl-C at every instruction of a PRINT-heavy program, most of them with the cursor
+            // mid-line: the ?BREAK report must come on a line of its own (the interpreter's column
+            // belief agrees with the terminal), and after CONT the remaining layout is unchanged
+            // where the break came at column 0
+            cfg.tron = false;
+            return crate::props::c13::interrupt_case(rng, cfg, "C11", 300);
+        }
         let mut prog = gen_program(rng, cfg.clone());
         // a few hand-shaped print lines inside the program as well
         if !prog.lines.is_empty() && !cfg.tron {
@@ -635,6 +776,11 @@ impl Property for C17 {
         if tier == Tier::Thorough && rng.pct(35) {
             // the thorough tier also explores larger programs
             cfg.size *= 2;
+        }
+        if rng.below(200) == 0 {
+            // Ctrl-C in every protocol state of INPUT (waiting, after REDO, between the reply and its
+            // assignments) and at every other instruction, then CONT
+            return crate::props::c13::interrupt_case(rng, cfg, "C17", 300);
         }
         let mut prog = gen_program(rng, cfg.clone());
         if rng.pct(12) {
